@@ -46,7 +46,9 @@ pub fn module_order(g: &Grammar, text: &str) -> Result<Vec<Vec<(String, String)>
             let mut v = Vec::new();
             for c in &m.children {
                 let e = g.elem(&c.tag);
-                let name = if e.is_named() || c.tag == "USER_RIGHTS" { c.params.first().map(|p| lex.tokens[p.0].text.clone()).unwrap_or_default() } else { String::new() };
+                // (RECORD_LAYOUT has the name as its only fixed parameter)
+                let first_is_name = matches!(e.items.first(), Some(vcore::grammar::Item::Single { ty: vcore::grammar::PType::Ident, name }) if name == "name");
+                let name = if e.is_named() || first_is_name || c.tag == "USER_RIGHTS" { c.params.first().map(|p| lex.tokens[p.0].text.clone()).unwrap_or_default() } else { String::new() };
                 v.push((c.tag.clone(), name));
             }
             out.push(v);
